@@ -8,7 +8,7 @@ git -C /repo apply $dir/patch.diff || { echo "patch does not apply"; exit 3; }
 echo "== suite:"; python3 /verif/tools/baseline.py | tail -2
 echo "== demo:"; (cd /repo && PYTHONPATH=/repo timeout 600 /venv/bin/python $dir/demo.py > /tmp/sc/demo_$id.out 2>&1; echo "demo exit $?"; tail -5 /tmp/sc/demo_$id.out)
 for p in $id "$@"; do
-  echo "== check $p:"; (cd /verif && ./check $p 2>&1 | grep -v "^KNOWN-FINDING\|^NOTE\|WARNING" | tail -4)
+  echo "== check $p:"; (cd /verif && ./check $p 2>&1 | grep -v "^KNOWN-FINDING\|^NOTE\|WARNING" | tail -8)
 done
 git -C /repo checkout -- .
 git -C /repo status --short | head -3
